@@ -1,6 +1,7 @@
 \* storage level, exhaustive over call sequences of ANY length: head 0..2 with two fork variants per block,
 \* <= 2 slots, ids {a, b, blank}, 0..2 txs per slot, newClasses {} or {k1}; every view
 \* obtainable in every reachable state is checked (EveryPotentialViewOK)
+\* measured: 19,551 distinct / 458,116 generated states, depth 12 (~35 s)
 CONSTANTS
   MaxHead = 2
   MaxSlots = 2
